@@ -151,15 +151,17 @@ func (o *failOptions) run() error {
 
 	newCanaryERS := canaryERS.DeepCopy()
 
-	newCanaryERS.Status.Conditions = append(
-		newCanaryERS.Status.Conditions,
-		conditions.NewExtendedDaemonSetReplicaSetCondition(
-			v1alpha1.ConditionTypeCanaryFailed,
-			conditions.BoolToCondition(true),
-			metav1.Now(),
-			"Manually failed",
-			"",
-			true),
+	// Update the condition in place when the replica set already carries one (for instance a False one left
+	// from a time it was the active replica set): a second entry of the same type would never be read.
+	conditions.UpdateExtendedDaemonSetReplicaSetStatusCondition(
+		&newCanaryERS.Status,
+		metav1.Now(),
+		v1alpha1.ConditionTypeCanaryFailed,
+		conditions.BoolToCondition(true),
+		"Manually failed",
+		"",
+		false,
+		true,
 	)
 	if err = o.client.Status().Update(context.TODO(), newCanaryERS); err != nil {
 		return fmt.Errorf("unable to update ERS status, err: %w", err)
